@@ -786,6 +786,60 @@ pub fn hashorder(args: &[String]) -> i32 {
   0
 }
 
+/// Hot key: the same month asked millions of times in one process (a long-running service
+/// formatting today's date). Whatever the memo counts per entry — hits, ages, generations in a
+/// packed or narrow field — wraps within 2^24 lookups or is out of reach of this check.
+pub fn hotkey(args: &[String]) -> i32 {
+  use tyme4rs::tyme::lunar::LunarMonth;
+  let seed = arg_u64(args, "--seed", 20260926);
+  let lookups = arg_u64(args, "--lookups", (1 << 24) + 64);
+  let nkeys = arg_u64(args, "--keys", 2) as usize;
+  let out = arg(args, "--out");
+  let t0 = Instant::now();
+  install_hooks();
+  let mut rng = Rng::new(mix(seed, 0x686f74));
+  let mut keys: Vec<(i64, i64)> = vec![(2024, 1), (2020, -4), (1, 1), (9999, 12), (2033, -11)];
+  while keys.len() < nkeys {
+    keys.push((rng.range(1, 9998), rng.range(1, 12)));
+  }
+  keys.truncate(nkeys.max(1));
+  let mut violations: Vec<String> = Vec::new();
+  let mut total = 0u64;
+  for (y, m) in &keys {
+    reset_library();
+    let reference = match std::panic::catch_unwind(|| LunarMonth::new(*y as isize, *m as isize)) {
+      Ok(Ok(r)) => r,
+      _ => continue,
+    };
+    let rf = (reference.get_year(), reference.get_month_with_leap(), reference.get_day_count(), reference.get_index_in_year(), reference.get_first_julian_day().get_day().to_bits());
+    let (yy, mm) = (*y as isize, *m as isize);
+    let bad: Result<Option<u64>, ()> = std::panic::catch_unwind(move || {
+      for k in 0..lookups {
+        let x = LunarMonth::from_ym(yy, mm);
+        let xf = (x.get_year(), x.get_month_with_leap(), x.get_day_count(), x.get_index_in_year(), x.get_first_julian_day().get_day().to_bits());
+        if xf != rf {
+          return Some(k);
+        }
+      }
+      None
+    })
+    .map_err(|_| ());
+    total += lookups;
+    let at = match bad {
+      Ok(None) => continue,
+      Ok(Some(k)) => k,
+      Err(()) => lookups,
+    };
+    let key = format!("LM.from_ym {} {}", y, m);
+    let hist = format!("run threads=1 policy=seq sched=0 hash=0 reset=1\nt0 q*{} {}\nend\n", at + 1, key);
+    violations.push(format!("{{\"obligation\":\"R\",\"key\":\"{}\",\"lookups\":{},\"detail\":\"lookup number {} of the same month differs from LunarMonth::new\",\"history\":\"{}\"}}", esc(&key), at + 1, at + 1, esc(&hist)));
+  }
+  let mut o = String::new();
+  let _ = write!(o, "{{\"mode\":\"hotkey\",\"seed\":{},\"keys\":{},\"lookups_per_key\":{},\"evaluations\":{},\"wall_s\":{:.3},\"violations\":[{}]}}\n", seed, keys.len(), lookups, total, t0.elapsed().as_secs_f64(), violations.join(","));
+  write_out(out, &o);
+  0
+}
+
 pub fn replay(args: &[String]) -> i32 {
   let path = match arg(args, "--script") {
     Some(p) => p,
